@@ -710,3 +710,139 @@ Proof.
   - eapply B; [exact Hr|exists o; exact Hin|exact Hx].
   - eapply C; eassumption.
 Qed.
+
+(* ---------- a panicking node item has written nothing ---------- *)
+Lemma release_list_no_panic xs : forall e, release_list e xs <> Panic.
+Proof.
+  induction xs as [|x xs IH]; intros e; cbn; [discriminate|].
+  unfold cc_release. destruct (pool_of e (cf x)) as [pl|]; [|discriminate].
+  destruct (release pl x); [apply IH|discriminate].
+Qed.
+
+Lemma release_in_no_panic m p xs e : get_entry m p = Some e -> snd (release_in m p xs) <> Panic.
+Proof.
+  intros Hg. unfold release_in. rewrite Hg. pose proof (release_list_no_panic xs e) as Hn.
+  destruct (release_list e xs); cbn; congruence.
+Qed.
+
+Lemma update_no_panic canp apisame m1 name cs p reread outs m' r fx :
+  keys_at m1 p cs -> update_cidrs_allocation canp apisame m1 name cs p reread outs = (m', r, fx) -> r <> Panic.
+Proof.
+  intros (e & Hg & _) H. unfold update_cidrs_allocation in H.
+  pose proof (release_in_no_panic m1 p cs e Hg) as Hrp.
+  destruct reread as [n|].
+  2:{ destruct (release_in m1 p cs) as [m2 r2]. inversion H; subst. discriminate. }
+  destruct ((length (n_cidrs n) =? length cs)%nat && same_cidrs (n_cidrs n) cs)%bool.
+  { rewrite Hg in H. inversion H; subst. discriminate. }
+  destruct (n_cidrs n) as [|c0 cs0].
+  2:{ destruct (release_in m1 p cs) as [m2 r2]. inversion H; subst. exact Hrp. }
+  destruct (patch_loop (canp cs) name cs outs 3) as [ok fxp].
+  destruct ok; [rewrite Hg in H; inversion H; subst; discriminate|].
+  rewrite Hg in H.
+  repeat match type of H with
+         | context [if ?b then _ else _] => destruct b
+         | context [match nth_error ?l ?k with _ => _ end] => destruct (nth_error l k) as [[]|]
+         end;
+    try (inversion H; subst; discriminate);
+    destruct (release_in m1 p cs) as [m2 r2]; cbn [snd] in Hrp; inversion H; subst; destruct r2 as [[]|?|]; try discriminate; congruence.
+Qed.
+
+Theorem sync_node_panic_writes_nothing po lab canp apisame held m cached reread outs m' fx :
+  MapInv m -> sync_node po lab canp apisame held m cached reread outs = (m', Panic, fx) -> fx = [].
+Proof.
+  intros M H. unfold sync_node in H. destruct cached as [node|]; [|inversion H; reflexivity].
+  destruct (n_deleting node); [destruct (release_cidr m node); inversion H; reflexivity|].
+  unfold allocate_or_occupy in H. destruct (n_cidrs node) as [|c0 cs0].
+  2:{ destruct reread; [destruct (occupy_cidrs po lab m node)|]; inversion H; reflexivity. }
+  destruct (prioritized_cidrs po lab held m node) as [m1 rp] eqn:Ep.
+  destruct rp as [[cs p]|e|]; [|inversion H|inversion H; reflexivity].
+  destruct cs as [|c1 cs1]; [inversion H|].
+  exfalso.
+  assert (Hk : keys_at m1 p (c1 :: cs1)).
+  { unfold prioritized_cidrs in Ep. destruct (ordered_matching po lab m (n_labels node) true) as [ps|e|]; try discriminate.
+    pose proof (prioritized_try_result held ps m m1 _ M Ep) as (_ & _ & Hk). exact Hk. }
+  exact (update_no_panic _ _ _ _ _ _ _ _ _ _ _ Hk H eq_refl).
+Qed.
+
+(* ---------- a write that reached the API server is never followed by giving the reservation back ---------- *)
+Lemma patch_loop_false_no_ok canp name cs outs n fx :
+  patch_loop canp name cs outs n = (false, fx) -> ~ In (FxPatch name cs POk) fx.
+Proof.
+  revert outs fx. induction n as [|n IH]; intros outs fx H; cbn in H; [inversion H; subst; intros []|].
+  destruct (if canp then match outs with o :: _ => o | [] => PFail end else PFail) eqn:Eo; [discriminate|..];
+    destruct (patch_loop canp name cs (tl outs) n) as [ok fx1] eqn:Ep; inversion H; subst;
+    intros [Hin|Hin]; try discriminate Hin; exact (IH _ _ Ep Hin).
+Qed.
+
+Theorem update_applied_is_kept canp apisame m1 name cs p reread outs m' r fx o :
+  keys_at m1 p cs -> update_cidrs_allocation canp apisame m1 name cs p reread outs = (m', r, fx) ->
+  In (FxPatch name cs o) fx -> o = POk \/ o = PTimeoutApplied ->
+  r = Ok tt \/ In (FxGetNode name false) fx.
+Proof.
+  intros (e & Hg & _) H Hin Ho. unfold update_cidrs_allocation in H.
+  destruct reread as [n|].
+  2:{ destruct (release_in m1 p cs) as [m2 r2]. inversion H; subst. destruct Hin. }
+  destruct ((length (n_cidrs n) =? length cs)%nat && same_cidrs (n_cidrs n) cs)%bool.
+  { rewrite Hg in H. inversion H; subst. destruct Hin. }
+  destruct (n_cidrs n) as [|c0 cs0].
+  2:{ destruct (release_in m1 p cs) as [m2 r2]. inversion H; subst. destruct Hin. }
+  destruct (patch_loop (canp cs) name cs outs 3) as [ok fxp] eqn:Epl.
+  destruct ok; [rewrite Hg in H; inversion H; subst; left; reflexivity|].
+  pose proof (patch_loop_false_no_ok _ _ _ _ _ _ Epl) as Hnok.
+  (* the patch is in fxp (everything appended later is an event or a read-back) *)
+  assert (Hinp : In (FxPatch name cs o) fxp).
+  { rewrite Hg in H.
+    repeat match type of H with
+           | context [if ?b then _ else _] => destruct b
+           | context [match nth_error ?l ?k with _ => _ end] => destruct (nth_error l k) as [[]|]
+           | context [let '(_, _) := release_in ?a ?b ?c in _] => destruct (release_in a b c)
+           end; inversion H; subst; clear H;
+      repeat (apply in_app_or in Hin; destruct Hin as [Hin|Hin]); try exact Hin;
+      repeat (destruct Hin as [Hin|Hin]; [discriminate Hin|]); destruct Hin. }
+  destruct Ho as [-> | ->]; [contradiction|].
+  assert (Ht : existsb (fun e0 => match e0 with FxPatch _ _ PTimeoutApplied | FxPatch _ _ PTimeoutNotApplied => true | _ => false end) fxp = true)
+    by (apply existsb_exists; exists (FxPatch name cs PTimeoutApplied); split; [exact Hinp|reflexivity]).
+  assert (Ha : existsb (fun e0 => match e0 with FxPatch _ _ PTimeoutApplied => true | _ => false end) fxp = true)
+    by (apply existsb_exists; exists (FxPatch name cs PTimeoutApplied); split; [exact Hinp|reflexivity]).
+  rewrite Ht, Ha, Hg, Bool.orb_true_r in H.
+  destruct (nth_error outs 3) as [[]|]; inversion H; subst; try (left; reflexivity).
+  right. apply in_or_app. right. left. reflexivity.
+Qed.
+
+Theorem sync_node_applied_is_kept po lab canp apisame held m cached reread outs m' r fx :
+  MapInv m -> sync_node po lab canp apisame held m cached reread outs = (m', r, fx) ->
+  forall nm cs o, In (FxPatch nm cs o) fx -> o = POk \/ o = PTimeoutApplied -> r = Ok tt \/ In (FxGetNode nm false) fx.
+Proof.
+  intros M H nm cs o Hin Ho. unfold sync_node in H. destruct cached as [node|]; [|inversion H; subst; destruct Hin].
+  destruct (n_deleting node); [destruct (release_cidr m node); inversion H; subst; destruct Hin|].
+  unfold allocate_or_occupy in H. destruct (n_cidrs node) as [|c0 cs0].
+  2:{ destruct reread; [destruct (occupy_cidrs po lab m node)|]; inversion H; subst; destruct Hin. }
+  destruct (prioritized_cidrs po lab held m node) as [m1 rp] eqn:Ep.
+  destruct rp as [[cs1 p]|e|].
+  - destruct cs1 as [|c1 cs1]; [inversion H; subst; destruct Hin as [Hin|[]]; discriminate Hin|].
+    assert (Hk : keys_at m1 p (c1 :: cs1)).
+    { unfold prioritized_cidrs in Ep. destruct (ordered_matching po lab m (n_labels node) true) as [ps|e|]; try discriminate.
+      pose proof (prioritized_try_result held ps m m1 _ M Ep) as (_ & _ & Hk). exact Hk. }
+    destruct (update_patches_only_unassigned _ _ _ _ _ _ _ _ _ _ _ H _ Hin eq_refl) as [_ (o' & Ho')].
+    inversion Ho'; subst. eapply update_applied_is_kept; eassumption.
+  - inversion H; subst. destruct Hin as [Hin|[]]; discriminate Hin.
+  - inversion H; subst. destruct Hin.
+Qed.
+
+Lemma sync_node_patches_same po lab canp apisame held m cached reread outs m' r fx :
+  sync_node po lab canp apisame held m cached reread outs = (m', r, fx) ->
+  forall n1 c1 o1 n2 c2 o2, In (FxPatch n1 c1 o1) fx -> In (FxPatch n2 c2 o2) fx -> n1 = n2 /\ c1 = c2.
+Proof.
+  intros H n1 c1 o1 n2 c2 o2 H1 H2. unfold sync_node in H. destruct cached as [node|]; [|inversion H; subst; destruct H1].
+  destruct (n_deleting node); [destruct (release_cidr m node); inversion H; subst; destruct H1|].
+  unfold allocate_or_occupy in H. destruct (n_cidrs node) as [|c0 cs0].
+  2:{ destruct reread; [destruct (occupy_cidrs po lab m node)|]; inversion H; subst; destruct H1. }
+  destruct (prioritized_cidrs po lab held m node) as [m1 rp].
+  destruct rp as [[cs1 p]|e|].
+  - destruct cs1 as [|x cs1]; [inversion H; subst; destruct H1 as [H1|[]]; discriminate H1|].
+    destruct (update_patches_only_unassigned _ _ _ _ _ _ _ _ _ _ _ H _ H1 eq_refl) as [_ (oa & Ha)].
+    destruct (update_patches_only_unassigned _ _ _ _ _ _ _ _ _ _ _ H _ H2 eq_refl) as [_ (ob & Hb)].
+    inversion Ha; inversion Hb; subst. split; reflexivity.
+  - inversion H; subst. destruct H1 as [H1|[]]; discriminate H1.
+  - inversion H; subst. destruct H1.
+Qed.
